@@ -123,6 +123,15 @@ def run_sched(ctx, prop, modules, theorems):
                               "skipped_wedged_known_deadlock": skipped}
     if lines and compared < 0.6 * len(lines):
         ctx.violation("correspondence-coverage", "", f"only {compared}/{len(lines)} traces compared", no_input=True)
+    # ---- C11 only: the eviction decision as a pure function (real findRunnerToUnload vs the model's findVictim)
+    if prop == "C11" and not ctx.replay:
+        vrc, vout, vdir = ctx.go_test("./server/", {"server/zz_verif_c11_victim_test.go": "server/zz_verif_c11_victim_test.go"},
+                                      "^TestVerifC11Victim$", env={"VERIF_N": ctx.scale(3000, 60000)}, timeout=600)
+        if vrc != 0:
+            ctx.violation("driver-failed", "victim", vout[-1500:], no_input=True)
+        ctx.read_stats(vdir)
+        failures += ctx.l2(vdir)
+        ctx.l1(vdir, label="L1-victim")
     # ---- L2: this property's monitors
     ctx.classify([f for f in failures if f["kind"].startswith(prefix)])
     ctx.coverage["l2_kinds_other_properties"] = sorted({f["kind"] for f in failures if not f["kind"].startswith(prefix)})
